@@ -304,6 +304,7 @@ func C04(p *an.Prog, r *an.Report) {
 	b := an.NewBounds(p)
 	b.PureCalls = func(f *ssa.Function) bool { return c04PureAccessors[an.FnKey(f)] }
 	b.Axioms = c04IntAxiom
+	b.MaxReqHops = capFor(5, 8)
 	if os.Getenv("C04DEBUG") != "" {
 		b.Debug = func(m string) { fmt.Fprintln(os.Stderr, "DEBUG", m) }
 	}
